@@ -214,12 +214,14 @@ Flags(i) ==
     supply |-> step /\ \E pl \in s2.pools : HasPool(s, pl.app, pl.id) /\ PoolOf(s, pl.app, pl.id).ps # pl.ps,
     pending |-> Pending(s2) # {},
     disabled |-> \E pl \in s2.pools : pl.disabled,
+    zeroSupply |-> \E pl \in s2.pools : pl.ps = 0,
+    activeUnfarm |-> step /\ nd.a \in {"Unfarm", "UnfarmAndWithdraw"} /\ nd.res.ok /\ \E r \in s.af : r \notin s2.af,
     ledger |-> step /\ \E u \in LedgerUsers(nd, s, s2) : \E d \in {"uaa", "ubb", "ucc"} : C07OwnerFlow(s, s2, u, d) # 0,
     residue |-> nd.st.tainted ]
 FL == [i \in 1..NLog |-> Flags(i)]
 Cnt(f) == Cardinality({i \in 1..NLog : FL[i][f]})
 Stats == PrintT(<<"STATS", [k \in {"step", "ok", "placed", "cancel", "mm", "mmDiff", "completed", "expired", "canceled", "partialEnd", "filled",
-                                   "emptied", "farmed", "activeFarm", "supply", "pending", "disabled", "ledger", "residue"} |-> Cnt(k)]
+                                   "emptied", "farmed", "activeFarm", "supply", "pending", "disabled", "zeroSupply", "activeUnfarm", "ledger", "residue"} |-> Cnt(k)]
                             @@ [nodes |-> NLog]>>)
 AllSeen == Stats /\ TLCGet("stats").distinct = NLog + NB + 1
 =============================================================================
